@@ -21,8 +21,8 @@ TV out  `xfr record out`: real dns.Server on an in-memory listener, handler = Tr
         MAC, timers only from the 2nd envelope, every answer validated from scratch on the MAC of its own request;
         TsigStatus of the request; single-bit alterations of the envelopes verified as Transfer.ReadMsg would).
 
-Known finding shared with C11 (known-findings.d/C15.txt): tsig/verify:accepts-invalid:tsig-class-altered (the class of the
-TSIG record is not covered by the MAC; seen on the first envelope of signed transfers in TV out).
+Finding shared with C11, repaired in /repo by c2100c2: tsig/verify:accepts-invalid:tsig-class-altered (the class of the
+TSIG record was not covered by the MAC; seen on the first envelope of signed transfers in TV out).
 
 Findings of this check on the pinned tree, since repaired in /repo (`fixed:` in known-findings.txt; the keys are
 still computed, so a regression is reported under the same name):
